@@ -315,7 +315,7 @@ fn c13(r: &mut Rng, i: u64, p: &HashMap<String, String>) -> Vec<Value> {
 
 /// C15: base configuration vs base + one option.
 fn c15(r: &mut Rng, i: u64, p: &HashMap<String, String>) -> Vec<Value> {
-    let opt = *r.pick(&["max_wrap", "pad", "strike", "noborders", "raw", "footnotes", "nolinkwrap", "min_wrap", "rawoff"]);
+    let opt = *r.pick(&["max_wrap", "pad", "strike", "noborders", "raw", "footnotes", "nolinkwrap", "min_wrap", "rawoff", "perm"]);
     let mut f = if r.chance(1, 2) { Feat::all() } else { Feat::notables() };
     // half of the documents have nothing the option applies to
     if r.chance(1, 2) {
@@ -346,6 +346,9 @@ fn c15(r: &mut Rng, i: u64, p: &HashMap<String, String>) -> Vec<Value> {
         "rawoff" => { if !base.iter().any(|o| o[0] == "noborders") { base.insert(0, json!(["noborders"])); with.insert(0, json!(["noborders"])); } with.push(json!(["raw", false])); }
         "footnotes" => { base.push(json!(["footnotes", true])); with.push(json!(["footnotes", false])); }
         "nolinkwrap" => with.push(json!(["nolinkwrap"])),
+        // the same builder calls in another order (each option at most once): nothing may change
+        "perm" => { for x in [json!(["nolinkwrap"]), json!(["min_wrap", r.range(1, 6)]), json!(["footnotes", r.chance(1, 2)])] { if !base.iter().any(|o| o[0] == x[0]) && r.chance(1, 2) { base.push(x); } }
+                    with = base.clone(); for k in (1..with.len()).rev() { let j = r.below(k as u64 + 1) as usize; with.swap(k, j); } }
         _ => { let k = r.range(0, 10); arg = json!(k); with.push(json!(["min_wrap", k])); }
     }
     vec![json!({"id": id("c15", i), "meta": {"opt": opt, "arg": arg},
